@@ -141,33 +141,86 @@ def c16_pattern_value_pairing(F, rep):
 
 
 # ---------------------------------------------------------------- C11-R5
+def fn_family(items, is_root, depth=2):
+    """{id(item): root item} for every root fn (is_root(item)) and the private free functions of the same module it calls
+    (directly or through `depth` levels): a dispatcher split into helper functions is still seen as a whole"""
+    by_mod = {}
+    for it in items:
+        if it["k"] == "fn" and it.get("body"):
+            by_mod.setdefault(it["mod"], {})[it["name"]] = it
+    fam = {}
+    for it in items:
+        if it["k"] == "fn" and it.get("body") and is_root(it):
+            fam[id(it)] = (it, it)
+            frontier = [it]
+            for _ in range(depth):
+                nxt = []
+                for g in frontier:
+                    for c in find(g["body"], "call"):
+                        pth = path_of(c[1]) or ""
+                        pth = re.sub(r"^(self|Self|super)::", "", pth)
+                        h = by_mod.get(it["mod"], {}).get(pth)
+                        if h is not None and id(h) not in fam and not (h.get("vis") or "").startswith("pub") and not is_root(h):
+                            fam[id(h)] = (h, it)
+                            nxt.append(h)
+                frontier = nxt
+    return fam
+
+
 def c11_offset_dimension(F, rep):
     rep.rule("C11-R5", "variadic concatenation: the running offset advances by 1 per scalar entry and by the block's extent ALONG the concatenation dimension per matrix entry "
                        "(columns = shape()[1] in horzcat, rows = shape()[0] in vertcat)")
     want = {"horzcat": "1", "vertcat": "0"}
     n = 0
+
+    def advance_of(x):
+        """(target text, increment expr) for `t += e`, `t = t + e`, `t = e + t` (t any place expression)"""
+        if x[0] == "bin" and x[1] == "+=":
+            return x[2], x[3]
+        if x[0] == "assign" and is_node(x[2]) and x[2][0] == "bin" and x[2][1] == "+":
+            t = render(x[1])
+            if render(x[2][2]) == t:
+                return x[1], x[2][3]
+            if render(x[2][3]) == t:
+                return x[1], x[2][2]
+        return None
+
+    fam = fn_family(F.syn("mech_interpreter.lib"), lambda x: x["mod"].split("::")[-1] in want and x["name"].startswith("impl_"))
+    per_root = {}
     for it in F.syn("mech_interpreter.lib"):
         if it["k"] not in ("fn", "method") or not it.get("body"):
             continue
         mod = it["mod"].split("::")[-1]
-        if mod not in want or not it["name"].startswith("impl_"):
+        if mod not in want:
             continue
-        per = {}
-        for x in walk(it["body"]):
-            if x[0] == "bin" and x[1] == "+=" and is_node(x[2]) and x[2][0] == "path":
-                rhs = re.sub(r"\s", "", render(x[3]))
-                m = re.match(r"^\(?(\w+)\.shape\(\)\[(\d)\]\)?$", rhs)
-                m2 = re.match(r"^\(?(\w+)\.(ncols|nrows)\(\)\)?$", rhs)
-                if rhs == "1":
-                    continue
-                n += 1
-                dim = m.group(2) if m else ({"ncols": "1", "nrows": "0"}[m2.group(2)] if m2 else None)
-                per[rhs] = per.get(rhs, 0) + 1
-                ok = dim == want[mod]
-                rep.check(ok, "C11-R5", "%s:%s:%s#%d" % (mod, x[2][1], rhs, per[rhs]),
-                          "%s (%s): the running offset `%s` advances by `%s`; a block occupies %s along the %s concatenation, so the next entry is placed inside or past the previous block" % (
-                              it["name"], mod, x[2][1], rhs, "its column count (shape()[1])" if mod == "horzcat" else "its row count (shape()[0])", "horizontal" if mod == "horzcat" else "vertical"),
-                          "%s (mech_interpreter.lib, %s)" % (it["name"], mod), sample={"module": mod, "increment": rhs})
+        dispatcher = it["name"].startswith("impl_") or id(it) in fam
+        from lib.alpha import scoped_walk, resolve_local
+        # a dispatcher split into private helpers is reported under the dispatcher's name (keys do not name helpers a refactoring introduces)
+        kname = fam[id(it)][1]["name"] if id(it) in fam else it["name"]
+        per = per_root.setdefault((mod, kname), {})
+        for x, env in scoped_walk(it["body"]):
+            adv = advance_of(x)
+            if not adv:
+                continue
+            # a named local standing for the increment is read as its initialiser (`let width = e.shape()[1]; i += width`)
+            inc = resolve_local(adv[1], env)
+            rhs = re.sub(r"\s", "", render(inc))
+            if re.fullmatch(r"\(?1(usize)?\)?", rhs):
+                continue
+            dims_ = set(re.findall(r"\.shape\(\)\[(\d)\]", rhs)) | {{"ncols": "1", "nrows": "0"}[m_] for m_ in re.findall(r"\.(ncols|nrows)\(\)", rhs)}
+            if not dispatcher and not dims_:
+                continue        # helper functions: only increments by a block extent are offsets
+            n += 1
+            dim = dims_.pop() if len(dims_) == 1 else None
+            # the key names the form of the increment, not the locals it is written with
+            form = re.sub(r"\b[A-Za-z_]\w*\.(?=shape\(\)|ncols\(\)|nrows\(\))", "", rhs) if (dim is not None) else "other"
+            form = re.sub(r"[()]", "", form) if dim is not None else form
+            per[form] = per.get(form, 0) + 1
+            ok = dim == want[mod]
+            rep.check(ok, "C11-R5", "%s:%s:advance-by-%s#%d" % (mod, kname, form, per[form]),
+                      "%s (%s): the running offset `%s` advances by `%s`; a block occupies %s along the %s concatenation, so the next entry is placed inside or past the previous block" % (
+                          it["name"], mod, render(adv[0]), rhs, "its column count (shape()[1])" if mod == "horzcat" else "its row count (shape()[0])", "horizontal" if mod == "horzcat" else "vertical"),
+                      "%s (mech_interpreter.lib, %s)" % (it["name"], mod), sample={"module": mod, "increment": rhs})
     rep.floor("C11-R5", "matrix-entry offset increments in the variadic concatenation arms", n, 40)
 
 
@@ -264,16 +317,33 @@ def c12_reshape_allocation(F, rep):
                 pt = a[0]
                 if pt[0] != "ptuple" or len(pt[1]) != 3:
                     continue
-                rows_p, cols_p = render_pat(pt[1][1]), render_pat(pt[1][2])
+                # the names an arm binds are spelled canonically (v / r / c by pattern position): keys and the comparison do not depend on them
+                ren = {}
+                for role, sub in (("v", pt[1][0]), ("r", pt[1][1]), ("c", pt[1][2])):
+                    for b_ in find(sub, "pident"):
+                        if b_[1] and (b_[1][0].islower() or b_[1][0] == "_"):
+                            ren.setdefault(b_[1], role)
+                canon = lambda txt: re.sub(r"[A-Za-z_]\w*", lambda m_: ren.get(m_.group(0), m_.group(0)), txt)
+                arm_lets = {}
+                for st in walk(a[2]):
+                    if st[0] == "let" and is_node(st[1]) and st[1][0] == "pident" and len(st) > 2 and st[2] is not None:
+                        arm_lets.setdefault(st[1][1], []).append(st[2])
+
+                def arg_txt(x):
+                    # a named local standing for an extent is read as its initialiser
+                    if is_node(x) and x[0] == "path" and x[1] in arm_lets and len(arm_lets[x[1]]) == 1 and x[1] not in ren:
+                        x = arm_lets[x[1]][0]
+                    return canon(re.sub(r"[\s()]", "", render(x)))
+                rows_p, cols_p = canon(render_pat(pt[1][1])), canon(render_pat(pt[1][2]))
                 for c in find(a[2], "call"):
                     pth = path_of(c[1]) or ""
                     mm = re.match(r"^(DMatrix|DVector|RowDVector)::from_element$", pth)
                     if not mm or len(c[2]) < 2:
                         continue
                     n += 1
-                    got = [re.sub(r"\s", "", render(x)) for x in c[2][:-1]]
+                    got = [arg_txt(x) for x in c[2][:-1]]
                     want = [rows_p, cols_p] if mm.group(1) == "DMatrix" else ([rows_p] if mm.group(1) == "DVector" else [cols_p])
-                    src_form = render_pat(pt[1][0])[:30]
+                    src_form = canon(render_pat(pt[1][0]))[:30]
                     rep.check(got == want, "C12-R5", "%s:%s:(%s,%s)->%s" % (it["name"], re.sub(r"[^A-Za-z0-9]+", "", src_form), rows_p, cols_p, mm.group(1)) if got == want else
                               "%s:%s:(%s,%s)->%s:%s" % (it["name"], re.sub(r"[^A-Za-z0-9]+", "", src_form), rows_p, cols_p, mm.group(1), ",".join(got)),
                               "%s: the arm for target shape (%s, %s) allocates %s::from_element(%s): the reshaped value comes out with rows and columns exchanged (or the wrong length)" % (
@@ -825,6 +895,69 @@ def assign_index_zero_rejected(F, rep, rule):
 
 
 # ---------------------------------------------------------------- C12-R7 the identity passthrough of a matrix annotation is taken only when no reshape is requested
+def _bound_names(pat):
+    return [b[1] for b in find(pat, "pident") if b[1] and (b[1][0].islower() or b[1][0] == "_")]
+
+
+def _plain_alias_of(e):
+    """the single name an expression merely passes on (`x`, `&x`, `*x`, `x.clone()`, `x.as_ref()`, `x.borrow()`, `Ref::new(x)` is NOT plain) else None"""
+    while is_node(e):
+        if e[0] == "path":
+            return e[1] if "::" not in e[1] else None
+        if e[0] in ("ref", "un") and len(e) > 2:
+            e = e[2]
+        elif e[0] == "paren":
+            e = e[1]
+        elif e[0] == "mcall" and e[2] in ("clone", "as_ref", "borrow", "to_owned", "as_mut", "borrow_mut", "deref") and not e[4]:
+            e = e[1]
+        elif e[0] == "try":
+            e = e[1]
+        else:
+            return None
+    return None
+
+
+def _name_roles(it):
+    """roles of the locals of a conversion dispatcher, from types and provenance (never from spelling):
+       params  - the function's parameters and plain aliases of them
+       kinds   - names bound to the element kind of a `ValueKind::Matrix(kind, dims)` pattern (and aliases)
+       dims    - names bound to its dims list, or initialised from a `.shape()` call (and aliases)
+       lets    - name -> list of initialisers"""
+    params = set()
+    for inp in it.get("sig", {}).get("inputs", []):
+        if inp and is_node(inp[0]):
+            params.update(_bound_names(inp[0]))
+    kinds, dims = set(), set()
+    for p_ in find(it["body"], "pts"):
+        if re.search(r"(^|::)ValueKind::Matrix$", p_[1]) and len(p_[2]) == 2:
+            kinds.update(_bound_names(p_[2][0]))
+            dims.update(_bound_names(p_[2][1]))
+    lets = {}
+    for n in walk(it["body"]):
+        if n[0] == "let" and is_node(n[1]) and len(n) > 2 and n[2] is not None:
+            pt = n[1][1] if n[1][0] == "ptype" and is_node(n[1][1]) else n[1]
+            if pt[0] == "pident":
+                lets.setdefault(pt[1], []).append(n[2])
+    changed = True
+    while changed:
+        changed = False
+        for nme, inits in lets.items():
+            for init in inits:
+                al = _plain_alias_of(init)
+                for role in (params, kinds, dims):
+                    if al in role and nme not in role:
+                        role.add(nme)
+                        changed = True
+                if nme not in dims and is_node(init) and init[0] == "mcall" and init[2] == "shape":
+                    dims.add(nme)
+                    changed = True
+    return params, kinds, dims, lets
+
+
+def _mentions(e, names):
+    return bool(set(re.findall(r"[A-Za-z_]\w*", render(e))) & names)
+
+
 def c12_identity_passthrough_guard(F, rep):
     from lib import guards as G
     rep.rule("C12-R7", "matrix annotation fast path: the source matrix is handed back unchanged (ConvertMatPassthrough { out: source }) only under guards that say no reshape is "
@@ -834,19 +967,47 @@ def c12_identity_passthrough_guard(F, rep):
     for it in F.syn("mech_interpreter.lib"):
         if it["k"] != "fn" or not it.get("body"):
             continue
+        roles = None
         for s, facts in G.sites(it["body"], "struct"):
             if s[1].split("::")[-1] != "ConvertMatPassthrough":
                 continue
             outs = [f[1] for f in s[2] if f[0] == "out"]
-            if not outs or not re.search(r"\bsource_value\b|\bsource\b|\barg\b", render(outs[0])) or re.search(r"\bconverted\b|\bout\b\)", render(outs[0]).replace("Ref::new(out)", "out)")):
+            if not outs:
                 continue
-            if not re.match(r"^Ref::new\((source_value|source|arg)\w*\.clone\(\)\)$", render(outs[0]).replace(" ", "")):
+            if roles is None:
+                roles = _name_roles(it)
+            params, kinds, dims, lets = roles
+            # the identity path hands back an INPUT of the function: `Ref::new(<param or plain alias of it>.clone())`
+            v = outs[0]
+            if is_node(v) and v[0] == "call" and (path_of(v[1]) or "").split("::")[-1] == "new" and len(v[2]) == 1:
+                v = v[2][0]
+            src_name = _plain_alias_of(v)
+            if src_name is None or src_name not in params:
                 continue
             n += 1
-            at = G.atoms(facts)
-            shape_ok = any(pol and c[0] == "mcall" and c[2] == "is_empty" and re.search(r"dims|shape", render(c[1])) for c, pol in at) or \
-                any(pol and c[0] == "bin" and c[1] == "==" and re.search(r"dims|shape", render(c[2])) and re.search(r"dims|shape", render(c[3])) for c, pol in at)
-            kind_ok = any(pol and c[0] == "bin" and c[1] == "==" and re.search(r"element_kind|elem_kind", render(c[2])) and re.search(r"element_kind|elem_kind", render(c[3])) for c, pol in at)
+            at = list(G.atoms(facts))
+            # a named condition (`let no_reshape = dims.is_empty() && ..; if no_reshape`) stands for its initialiser
+            k = 0
+            while k < len(at) and k < 200:
+                c, pol = at[k]
+                k += 1
+                if c[0] == "path" and c[1] in lets and len(lets[c[1]]) == 1:
+                    at += G.atoms([(lets[c[1]][0], pol)])
+            is_dims = lambda e: _mentions(e, dims) or any(m[2] == "shape" for m in find(e, "mcall"))
+            shape_ok = False
+            kind_ok = False
+            for c, pol in at:
+                if c[0] == "mcall" and c[2] == "is_empty" and pol and is_dims(c[1]):
+                    shape_ok = True
+                if c[0] == "bin" and ((c[1] == "==" and pol) or (c[1] == "!=" and not pol)):
+                    L, R = c[2], c[3]
+                    for x, y in ((L, R), (R, L)):
+                        if is_node(x) and x[0] == "mcall" and x[2] == "len" and is_dims(x[1]) and re.fullmatch(r"0(usize)?", re.sub(r"\s", "", render(y))):
+                            shape_ok = True
+                    if is_dims(L) and is_dims(R) and not any(x[0] == "index" for x in list(find(L, "index")) + list(find(R, "index"))):
+                        shape_ok = True
+                    if _mentions(L, kinds) and _mentions(R, kinds):
+                        kind_ok = True
             conds = [("" if pol else "!") + render(c)[:50] for c, pol in at if c[0] in ("mcall", "bin")]
             ok = shape_ok and kind_ok
             rep.check(ok, "C12-R7", "%s:identity-passthrough" % it["name"] if ok else "%s:identity-passthrough:%s" % (it["name"], "no-shape-guard" if not shape_ok else "no-kind-guard"),
@@ -862,16 +1023,28 @@ def c11_block_operand_positions(F, rep):
                        "(through `let eK = extract(&arguments[K])`, a tuple match over (&arguments[0], &arguments[1], ..), or directly) - a repeated or exchanged index writes one block twice "
                        "and never checks the kind of the block it dropped")
     n = 0
-    for it in F.syn("mech_interpreter.lib"):
-        if it["k"] != "fn" or it["name"] not in ("impl_horzcat_fxn", "impl_vertcat_fxn") or not it.get("body"):
-            continue
+    fam7 = fn_family(F.syn("mech_interpreter.lib"), lambda x: x["name"] in ("impl_horzcat_fxn", "impl_vertcat_fxn"))
+    for it_, root_ in fam7.values():
+        # a dispatcher split into private helper functions is reported under the dispatcher's name
+        it = dict(it_, name=root_["name"])
+
+        # the argument list is the parameter of type &Vec<Value> (whatever it is called) and plain aliases of it
+        argnames = set()
+        for inp in it.get("sig", {}).get("inputs", []):
+            if inp and is_node(inp[0]) and len(inp) > 1 and re.search(r"Vec\s*<\s*Value\s*>|\[\s*Value\s*\]", str(inp[1])):
+                argnames.update(b_[1] for b_ in find(inp[0], "pident"))
+        if not argnames:
+            argnames = {"arguments"}
+        for st in walk(it["body"]):
+            if st[0] == "let" and is_node(st[1]) and st[1][0] == "pident" and len(st) > 2 and _plain_alias_of(st[2]) in argnames:
+                argnames.add(st[1][1])
 
         def arg_ix(e, env):
             """index K if the expression is taken from arguments[K] (directly or through a name bound from it)"""
             if not is_node(e):
                 return None
             for x in walk(e):
-                if x[0] == "index" and is_node(x[1]) and x[1][0] == "path" and x[1][1] == "arguments" and is_node(x[2]) and x[2][0] == "int":
+                if x[0] == "index" and is_node(x[1]) and x[1][0] == "path" and x[1][1] in argnames and is_node(x[2]) and x[2][0] == "int":
                     return int(re.sub(r"\D.*$", "", str(x[2][1])))
             for x in walk(e):
                 if x[0] == "path" and x[1] in env:
